@@ -665,8 +665,28 @@ class Executor:
         mem, _w = L.mem_theory(k.sort())
         return mem(keys, k)
 
+    def owner_of(self, v):
+        """heap object (ref, field) whose field IS this container value (aliasing by identity)"""
+        for ref, rec in self.st.heap.items():
+            for name, fv in (rec.get("fields") or {}).items():
+                if fv is v:
+                    return ref, name
+        return None
+
     def rebind(self, expr, old, new):
         """in-place mutation of the container denoted by `expr` modelled as rebinding"""
+        own = self.owner_of(old)
+        if own is not None and isinstance(expr, ast.Name):
+            # the mutated container is (an alias of) a field of a heap object: the mutation is
+            # visible through that object.  If the object came in as a parameter and the contract
+            # does not list the field under `modifies`, this is a frame violation.
+            ref, name = own
+            for pname, pv in self.entry.env.items():
+                if isinstance(pv, VRef) and self._reaches(pv.ref, ref):
+                    declared = any(m.split(".")[0] == pname and m.split(".")[-1] == name for m in self.contract.modifies)
+                    if not declared:
+                        self.oblige(f"frame.modifies:{pname}.{name}", expr, z3.BoolVal(False), "in-place mutation of a container reachable from a parameter that the contract does not allow to change")
+                        raise PathEnd()
         if getattr(old, "escaped", False):
             raise Unsupported(f"in-place mutation of a container that escaped: {ast.unparse(expr)}")
         if isinstance(expr, ast.Name):
@@ -680,6 +700,18 @@ class Executor:
             self.assign(expr, new)
         else:
             raise Unsupported("mutation through a complex expression")
+
+    def _reaches(self, a, b, seen=None):
+        if a == b:
+            return True
+        seen = seen or set()
+        if a in seen:
+            return False
+        seen.add(a)
+        for fv in (self.st.heap.get(a, {}).get("fields") or {}).values():
+            if isinstance(fv, VRef) and self._reaches(fv.ref, b, seen):
+                return True
+        return False
 
     def mark_escaped(self, v):
         if isinstance(v, (VList, VDict)):
@@ -1506,6 +1538,11 @@ class Executor:
             return VDict(ty.kt.list_theory().nil, self.st.fresh_const("emptydict", z3.ArraySort(ty.kt.sort(), ty.et.sort())), ty.et, ty.kt)
         if ty is TOpaque:
             return v
+        scalar = (ty is TBool or ty is TInt or ty is TStr or ty is TFloat)
+        if scalar and isinstance(v, (VRef, VCnd, VForm, VList, VDict, VSet, VTuple)):
+            # an object where the callee's contract (and its annotation) wants a scalar
+            self.oblige(f"pre@call.type:{what}", self.fn, z3.BoolVal(False), f"argument of type {v.ty} passed for parameter of type {ty}")
+            return ty.fresh("mistyped", self.st)
         if isinstance(v, VOptional) and not isinstance(ty, TOptional):
             # passing an Optional where the callee's contract wants the inner type
             self.oblige(f"pre@call.notnone:{what}", self.fn, z3.Not(v.isnone))
